@@ -78,6 +78,11 @@ def gen_set(rng, tag, scc=False):
             while True:
                 nodes, lines = capsets.text_nodes(rng, f'{tag}.{i}', exclude='|', p_meta=0.3,
                                                   empty_lines=rng.choice([0.0, 0.0, 0.4]))
+                if rng.random() < 0.1:
+                    # letters that equal s / i / k only under Unicode case-folding (long s, dotless i, Kelvin
+                    # sign): '<\u017fami' is not the SAMI marker
+                    nodes += [['b'], ['t', rng.choice(['<\u017fami>', '<sam\u0131>', '<\u017fam\u0131 x', '\u017fcenarist_\u017fcc V1.0',
+                                                      '</\u0287t>', '\u212aind: <\u017fami'])]]
                 if rng.random() < 0.15:
                     # a row that is nothing but digits (looks like an SRT counter)
                     nodes += [['b'], ['t', rng.choice(['7', '12', '2024'])]]
@@ -97,7 +102,11 @@ def gen_set(rng, tag, scc=False):
             a, b = a * 1001 / 1000.0, b * 1001 / 1000.0       # the float instants an SCC read or a rate skew produces
         caps.append({'start': a, 'end': b, 'nodes': nodes, 'style': None, 'layout': None})
         t += dur + rng.choice([0, 1000000, 5000000] if not scc else [6000000, 10000000])
-    return {'langs': [{'lang': 'en-US', 'layout': None, 'captions': caps}], 'styles': None, 'layout': None}
+    langs = [{'lang': 'en-US', 'layout': None, 'captions': caps}]
+    if not scc and rng.random() < 0.15:
+        # a second language without captions (only the writers that address languages separately see it)
+        langs.append({'lang': 'fr', 'layout': None, 'captions': []})
+    return {'langs': langs, 'styles': None, 'layout': None}
 
 
 WRITERS = ['SRTWriter', 'WebVTTWriter', 'DFXPWriter', 'SinglePositioningDFXPWriter', 'LegacyDFXPWriter',
@@ -244,6 +253,10 @@ def check(case, ctx):
     W = {'SinglePositioningDFXPWriter': SinglePositioningDFXPWriter,
          'LegacyDFXPWriter': LegacyDFXPWriter}.get(wname) or getattr(pycaption, wname)
     cs = dump.mk_caption_set(case['set'])
+    if wname in ('SRTWriter', 'MicroDVDWriter') and len(case['set']['langs']) > 1:
+        # these two join all languages of a set into one document: keep the single written language
+        case = dict(case, set=dict(case['set'], langs=case['set']['langs'][:1]))
+        cs = dump.mk_caption_set(case['set'])
     out = W().write(cs)
     got = _check_string(out, ctx, fails, expect=READER_OF[wname])
     if got is not None and got.__name__ == READER_OF[wname]:
